@@ -74,26 +74,28 @@ Definition residual (add : bool) (mask : option mask_mode) (s0 s1 : Z) (cat : li
   option_map (residual_px add (match mask with None => false | Some _ => true end) data)
              (make_model_px s0 s1 mask cat i j).
 
-(* ---- load_sources: astropy's Table.rename_column applied pair by pair.
-   A table is the list of its column names with the column data (names are unique). *)
+(* ---- load_sources (repaired shape): the requested columns are copied (`picked`), every column whose
+   name is a requested name or a catalogue name is removed, the copies are added under the
+   catalogue names.  A table is the list of its column names with the column data. *)
 Section Table.
   Variable V : Type.
   Definition table := list (string * V).
   Definition has (t : table) (c : string) : bool := existsb (fun e => String.eqb (fst e) c) t.
   Definition col (t : table) (c : string) : option V :=
     option_map snd (find (fun e => String.eqb (fst e) c) t).
-  (* KeyError when `old` is missing or when `new` is the name of another column *)
-  Definition rename_column (t : table) (old new : string) : option table :=
-    if negb (has t old) then None
-    else if String.eqb old new then Some t
-    else if has t new then None
-    else Some (map (fun e => if String.eqb (fst e) old then (new, snd e) else e) t).
-  Fixpoint renames (t : table) (pairs : list (string * string)) : option table :=
-    match pairs with
-    | [] => Some t
-    | (old, new) :: r => match rename_column t old new with Some t' => renames t' r | None => None end
+  Definition mem (c : string) (l : list string) : bool := existsb (String.eqb c) l.
+  (* [table[c].copy() for c in required_cols]; None (load_sources returns None) when one is missing *)
+  Fixpoint pick (t : table) (olds : list string) : option (list V) :=
+    match olds with
+    | [] => Some []
+    | c :: r => match col t c, pick t r with Some v, Some vs => Some (v :: vs) | _, _ => None end
+    end.
+  Definition load_cols (olds news : list string) (t : table) : option table :=
+    match pick t olds with
+    | None => None
+    | Some vs => Some (filter (fun e => negb (mem (fst e) (olds ++ news))) t ++ combine news vs)
     end.
   (* colmap: parameter name (ra_col ..) -> the user's column name *)
   Definition load_table (colmap : string -> string) (t : table) : option table :=
-    renames t (combine (map colmap rename_from) rename_to).
+    load_cols (map colmap rename_from) rename_to t.
 End Table.
